@@ -126,6 +126,15 @@ example : ((lts { n := 3, val := fun i => i, err := fun _ => none, pairs := [(1,
       (init { n := 3, val := fun i => i, err := fun _ => none, pairs := [(1, 0), (2, 1)] })
       [.spawn, .spawn, .spawn, .rv 0, .wr 0, .rv 1]).isSome = true := by decide
 
+/-- Termination under every schedule: each step strictly decreases `Do.measure`, so a run from the
+initial state has at most `measure init` steps; with `do_progress`, every maximal run ends with Do
+returned — functions that wait for one another do complete. -/
+theorem do_terminates (c : Cfg) (hwf : WF c) (tr : List Label) (s : State)
+    (h : (lts c).run (init c) tr = some s) :
+    tr.length + Do.measure c s ≤ Do.measure c (init c) :=
+  Lts.run_length_le (lts c) (Inv c) (Do.measure c) (fun s l s' hi hs => inv_step c s s' l hi hs)
+    (fun s l s' hi hs => measure_decreases c s s' l hi hs) tr _ s (inv_init c hwf.1) h
+
 /-- No goroutine is left behind: when Do has returned every worker has finished (its send on the
 unbuffered errChan was matched by one of main's n receives), and nothing else was ever started. -/
 theorem do_no_leak (c : Cfg) (hwf : WF c) (s : State) (hr : (lts c).Reachable s) (hf : final s) :
